@@ -384,6 +384,8 @@ class LoopWorld:
             self.zk.expire(self.master_client.client_id[0])
         client = self.zk.connect('master%d' % self.master_gen)
         self.master_client = client
+        if self.pending_intrusion is not None:
+            self._arm_intrusion(self.pending_intrusion)
         self.master = None
         self.seen_cversion = {}
         master = mastermod.Master(ms.zkbackend.ZkBackend(client), 'cell')
@@ -431,6 +433,9 @@ class LoopWorld:
                 return False
             if kind == 'died':
                 err = ms.MasterDied(payload[0], payload[1])
+                if not started and self.intrusion_fired:
+                    self.on_master_died(err)
+                    return False
                 if not started:
                     self.fail('%s:master-cannot-start:%s' % (
                         self.prop if self.prop in ('C09', 'C10', 'C11')
